@@ -27,6 +27,7 @@ type ONS struct {
 	Tag   string
 	// top-level names this script created (or tried to), in creation order
 	names []string
+	g     int // progress of the gamma track (sub-domain created in the block of its parent's purchase)
 }
 
 func (o *ONS) Name() string { return "ons" }
@@ -475,6 +476,37 @@ func (o *ONS) random(c *Ctx) []hist.TxSpec {
 	return out
 }
 
+// gammaTrack: a name is listed; in one block its owner creates a sub-domain and then somebody buys the name
+// (the sub-domains of a purchased name go with the purchase, also the one created moments before); later the
+// new owner deactivates and re-activates the name.
+func (o *ONS) gammaTrack(c *Ctx) []hist.TxSpec {
+	us := c.W.Users
+	gamma := "gamma" + o.Tag + ".ol"
+	seller, buyer := us[4%len(us)], us[5%len(us)]
+	g := FindDomain(c.S, gamma)
+	switch {
+	case o.g == 0 && o.n >= 3:
+		o.g = 1
+		return []hist.TxSpec{onsCreate(c, seller, nil, gamma, priceFor(c, 5000), "", "create a name that will be sold together with a brand-new sub-domain")}
+	case o.g == 1 && changeable(c, g):
+		o.g = 2
+		return []hist.TxSpec{onsSell(c, seller, gamma, OLT(321), false, "owner lists the name")}
+	case o.g == 2 && changeable(c, g) && g.OnSale:
+		o.g = 3
+		return []hist.TxSpec{
+			onsCreate(c, seller, nil, "late."+gamma, priceFor(c, 1), "", "owner creates a sub-domain in the very block in which the name is bought"),
+			onsPurchase(c, buyer, nil, gamma, OLT(321), "purchase at the asking price, right after the seller created a sub-domain"),
+		}
+	case o.g == 3 && changeable(c, g) && g.Owner == buyer.Addr.String():
+		o.g = 4
+		return []hist.TxSpec{onsUpdate(c, buyer, nil, gamma, false, "", "new owner deactivates the purchased name")}
+	case o.g == 4 && changeable(c, g):
+		o.g = 5
+		return []hist.TxSpec{onsUpdate(c, buyer, nil, gamma, true, "", "new owner re-activates the purchased name")}
+	}
+	return nil
+}
+
 func (o *ONS) Plan(c *Ctx) []hist.TxSpec {
 	o.n++
 	if o.n == 1 {
@@ -482,6 +514,7 @@ func (o *ONS) Plan(c *Ctx) []hist.TxSpec {
 		o.track = [12]int{0, 0, 1, 1, 3, 1, 2, 2, 2, 2, 2, 2}
 	}
 	out := o.directed(c)
+	out = append(out, o.gammaTrack(c)...)
 	// while a passed proposal waits for its finalisation (which may change the ONS prices at the end of a
 	// block), the traded name is renewed: the renewal is priced with the options in force, not the coming ones
 	for k := range c.S {
